@@ -105,7 +105,37 @@ pub fn c18_function_is_error() {
     forget(f);
 }
 
+const B64: &[u8; 64] = b"ABCDEFGHIJKLMNOPQRSTUVWXYZabcdefghijklmnopqrstuvwxyz0123456789+/";
+/// bytes export as standard base64 (RFC 4648 alphabet with '+' and '/', '=' padding)
+pub fn c18_bytes_base64() {
+    let (a, b, c): (u8, u8, u8) = (any(), any(), any());
+    let n: u8 = any();
+    sym::assume(n >= 1 && n <= 3);
+    let v = Value::Bytes(Arc::new(if n == 1 { vec![a] } else if n == 2 { vec![a, b] } else { vec![a, b, c] }));
+    let j = v.json();
+    let (b1, c1) = (if n >= 2 { b } else { 0 }, if n >= 3 { c } else { 0 });
+    let want: [u8; 4] = [
+        B64[(a >> 2) as usize],
+        B64[(((a & 3) << 4) | (b1 >> 4)) as usize],
+        if n >= 2 { B64[(((b1 & 15) << 2) | (c1 >> 6)) as usize] } else { b'=' },
+        if n >= 3 { B64[(c1 & 63) as usize] } else { b'=' },
+    ];
+    match &j {
+        Ok(serde_json::Value::String(s)) => {
+            let got = s.as_bytes();
+            check!(got.len() == 4, "1-3 bytes export to four base64 characters");
+            check!(got.len() == 4 && got[0] == want[0] && got[1] == want[1] && got[2] == want[2] && got[3] == want[3], "bytes export as standard base64 with padding");
+        }
+        _ => check!(false, "bytes export to a JSON string"),
+    }
+    cover!(n == 1 && a == 0xff, "single byte 0xff reachable ('/' in the standard alphabet)");
+    cover!(n == 3 && a == 0xfb, "three bytes starting 0xfb reachable ('+' in the standard alphabet)");
+    forget(j);
+    forget(v);
+}
+
 crate::harnesses! {
+    #[kani::unwind(8)] c18_bytes_base64: "quick", "Value::json on Bytes -> base64 STANDARD engine", "every byte string of length 1-3";
     #[kani::unwind(2)] c18_int_uint_bool_null: "quick", "Value::json on Int/UInt/Bool/Null; ser::to_value on the exported document", "all 64-bit payloads";
     #[kani::unwind(2)] c18_float: "quick", "Value::json on Float; ser::to_value on the exported document", "all f64 bit patterns";
     #[kani::unwind(2)] c18_duration: "quick", "Value::json on Duration", "every chrono duration (both sides of +-2^63 ns)";
